@@ -1,6 +1,7 @@
 import EudoxiaModel.Proofs.WorldInv
 import EudoxiaModel.Model.Obs
 import EudoxiaModel.Proofs.TickFrame
+import EudoxiaModel.Proofs.FreshWorlds
 /-! # C03 — pool CPU and RAM are conserved: never lost, never double-freed, never oversold -/
 namespace Eudoxia.C03
 open Eudoxia
@@ -88,5 +89,62 @@ theorem running_containers_have_work_left {w : World} (hr : WorldReady w) : (w.t
   apply hne
   unfold Ctr.unfinished
   exact List.drop_eq_nil_of_le (by omega)
+
+/-! ### full simulations under the shipped schedulers
+
+The property also quantifies over *full simulations under the shipped schedulers*.  The whole-run theorems of C08 / C18 carry the executor's invariant
+(`WorldReady`) through every tick of every run; conservation is part of it.  Since `arrivals` is any list of arrival batches — one per tick — the world
+"after the run" is the world at an arbitrary tick boundary. -/
+
+/-- what `WorldReady` says about resources -/
+theorem ready_world_is_conserved {w : World} (hr : WorldReady w) :
+    ∀ p ∈ w.pools,
+      p.availC + cpuSum p.active + cpuSum p.suspending = p.capC ∧
+      p.availR + ramSum p.active + ramSum p.suspending = p.capR ∧
+      0 ≤ p.availC ∧ (w.cfg.overcommit = false → 0 ≤ p.availR) := by
+  intro p hp
+  have g := (hr.pools p hp).1.1
+  exact ⟨g.1.cpu, g.1.ram, g.2.1, g.2.2⟩
+
+/-- **`priority` (multi-operator containers: pre-emption, write-outs, re-queued work)**: from every fresh world with a well-formed workload, for any arrival
+batches, the run reaches its last tick and at that tick boundary CPU and RAM are conserved in every pool and neither is oversold -/
+theorem conserved_on_every_tick_of_every_priority_run (cfg : Cfg) (store : Store) (pipes : Array PipeInfo) (caps : List (Nat × Nat))
+    (arrivals : List (List Nat)) (hm : cfg.multiOp = true) (ho : cfg.overcommit = false) (hq : 0 < cfg.q)
+    (wf : (freshWorld cfg store pipes caps).WFP) (hs : (freshWorld cfg store pipes caps).SegsOK) (hp : (freshWorld cfg store pipes caps).PidOK)
+    (ht : (freshWorld cfg store pipes caps).Topo) (hF : arrivals.flatten.Nodup)
+    (hfut : ∀ pid ∈ arrivals.flatten, (pipes.getD pid default).order ≠ [] ∧ ∀ o ∈ (pipes.getD pid default).order, store.stOf o = OpState.pending) :
+    ∃ w' st' res', Prio.loop (freshWorld cfg store pipes caps) {} [] arrivals = .ok (w', st', res') ∧
+      ∀ p ∈ w'.pools,
+        p.availC + cpuSum p.active + cpuSum p.suspending = p.capC ∧ p.availR + ramSum p.active + ramSum p.suspending = p.capR ∧
+        0 ≤ p.availC ∧ 0 ≤ p.availR := by
+  obtain ⟨w', st', cs', js', h, inv⟩ := PM.run_never_raises arrivals _ {} [] [] (PM.fresh_inv cfg store pipes caps _ hm ho hq wf hs hp ht hF hfut)
+  refine ⟨w', st', _, h, fun p hp => ?_⟩
+  obtain ⟨a, b, c, d⟩ := ready_world_is_conserved inv.ready p hp
+  exact ⟨a, b, c, d inv.over⟩
+
+/-- **`priority-pool` (multi-operator containers)**: the same, on its two pools -/
+theorem conserved_on_every_tick_of_every_priority_pool_run (cfg : Cfg) (store : Store) (pipes : Array PipeInfo) (c0 c1 : Nat × Nat)
+    (arrivals : List (List Nat)) (hm : cfg.multiOp = true) (hq : 0 < cfg.q) (h0 : 0 < c0.1 ∧ 0 < c0.2) (h1 : 0 < c1.1 ∧ 0 < c1.2)
+    (wf : (freshWorld cfg store pipes [c0, c1]).WFP) (hs : (freshWorld cfg store pipes [c0, c1]).SegsOK) (hp : (freshWorld cfg store pipes [c0, c1]).PidOK)
+    (ht : (freshWorld cfg store pipes [c0, c1]).Topo) (hF : arrivals.flatten.Nodup)
+    (hfut : ∀ pid ∈ arrivals.flatten, (pipes.getD pid default).order ≠ [] ∧ ∀ o ∈ (pipes.getD pid default).order, store.stOf o = OpState.pending) :
+    ∃ w' st' res', PP.loop (freshWorld cfg store pipes [c0, c1]) {} [] arrivals = .ok (w', st', res') ∧
+      ∀ p ∈ w'.pools,
+        p.availC + cpuSum p.active + cpuSum p.suspending = p.capC ∧ p.availR + ramSum p.active + ramSum p.suspending = p.capR ∧
+        0 ≤ p.availC ∧ (w'.cfg.overcommit = false → 0 ≤ p.availR) := by
+  obtain ⟨w', st', cs', h, inv⟩ := PP.run_never_raises arrivals _ {} [] (PP.fresh_inv cfg store pipes c0 c1 _ hm hq h0 h1 wf hs hp ht hF hfut)
+  exact ⟨w', st', _, h, ready_world_is_conserved inv.ready⟩
+
+/-- **`overbook` (memory overcommit enabled)**: CPU and RAM are conserved and CPU is never oversold; free RAM may be negative — that is what overcommit means -/
+theorem conserved_on_every_tick_of_every_overbook_run (cfg : Cfg) (store : Store) (pipes : Array PipeInfo) (caps : List (Nat × Nat))
+    (arrivals : List (List Nat)) (ho : cfg.overcommit = true) (hc : ∀ c ∈ caps, 0 < c.2)
+    (wf : (freshWorld cfg store pipes caps).WFP) (hs : (freshWorld cfg store pipes caps).SegsOK) :
+    ∃ w' st' res', Overbook.loop (freshWorld cfg store pipes caps) {} [] arrivals = .ok (w', st', res') ∧
+      ∀ p ∈ w'.pools,
+        p.availC + cpuSum p.active + cpuSum p.suspending = p.capC ∧ p.availR + ramSum p.active + ramSum p.suspending = p.capR ∧ 0 ≤ p.availC := by
+  obtain ⟨w', st', res', h, inv⟩ := Overbook.run_never_raises arrivals _ {} [] (Overbook.fresh_inv cfg store pipes caps ho hc wf hs)
+  refine ⟨w', st', res', h, fun p hp => ?_⟩
+  obtain ⟨a, b, c, _⟩ := ready_world_is_conserved inv.ready p hp
+  exact ⟨a, b, c⟩
 
 end Eudoxia.C03
